@@ -278,8 +278,8 @@ where
                         .unwrap_or_else(|e| error!("[udp] client*-local send mpsc failed; error={}", e));
                 }
                 Err(e) => {
+                    // a datagram that does not decode is skipped; a stream outbound ends by itself after an error
                     error!("[udp] server*-client decode failed; error={}", e);
-                    break;
                 }
             }
         }
